@@ -116,7 +116,7 @@ def report_diff(ctx, it, cfg, diff, also=(), seen_keys=None):
         tags = order_tags(sp)
         pipe = "venom" if cfg.venom else "legacy"
         key = f"C01:{sd['what']}:{cfg.name}"
-        if len(tags) == 1:
+        if len(tags) == 1 and len(sp.exts) <= 2:
             # the shrunk program is an instance of a shape with a known root cause: stable key per (pipeline, shape)
             tag = sorted(tags)[0]
             key = f"C01:{pipe}:{tag}" if tag.startswith("loop-") else f"C01:{pipe}:order:{tag}"
